@@ -165,3 +165,32 @@ def canon_values(values, datatype, termtype='http://w3id.org/rml/Literal', kind=
         except Exception as e:
             out.append(_bucket(e))
     return out
+
+
+def config_probe(text, as_file=None, group='g1'):
+    """load_config_from_argument on an INI text (or on a file holding it) and every getter the model also computes."""
+    from morph_kgc.args_parser import load_config_from_argument
+    import logging
+    arg = text
+    if as_file:
+        with open(as_file, 'w', encoding='utf-8') as f:
+            f.write(text)
+        arg = as_file
+    root = logging.getLogger()
+    try:
+        try:
+            c = load_config_from_argument(arg)
+        except Exception as e:
+            return _bucket(e)
+        def safe(fn):
+            try:
+                return fn()
+            except Exception as e:
+                return 'error'
+        return {'values': [c.get_output_format(), c.get_logging_level(), c.get_mapping_partitioning(), c.get_output_dir(), c.get_output_file(),
+                           c.get_safe_percent_encoding(), str(safe(c.get_number_of_processes))],
+                'na': sorted(c.get_na_values()), 'printable': safe(c.only_write_printable_characters), 'infer': safe(c.infer_sql_datatypes),
+                'path': safe(lambda: c.get_output_file_path(group))}
+    finally:
+        for h in list(root.handlers):
+            root.removeHandler(h)
